@@ -237,4 +237,22 @@ PROPS['C19'] = {
     'partial': 'proved: checker soundness/completeness (checkRay <-> RayOK), dedup/takewhile properties for every sample sequence, coverage => unobstructed view all visible, origin visibility, memoisation correctness for every query history. Not provable with the installed tooling: that the float ray marching yields adjacent steps ending on the border and that the arctan2 fan covers the area (libm); these are enumerated on the implementation.',
 }
 
+PROPS['C17'] = {
+    'targets': ['GridVerse.Props.C17', 'GridVerse.Agree.Registry'],
+    'theorem_files': [('GridVerse/Props/C17.lean', 'C17_'), ('GridVerse/Agree/Registry.lean', 'agree_')],
+    'audit_prefix': 'C17_',
+    'extract': ('tables', 'configs'),
+    'families': {
+        'quick': [('harness.corr_cfg', 'fam_cfg', 60, 16), ('harness.corr_cfg', 'fam_factory', 0, 16), (ENVM, 'fam_env_shipped', 84, 16)],
+        'thorough': [('harness.corr_cfg', 'fam_cfg', 0, 16), ('harness.corr_cfg', 'fam_factory', 0, 16), (ENVM, 'fam_env_shipped', 21 * 100, 16), (ENVM, 'fam_env_random', 8000, 16)],
+    },
+    'oracle_cases': {'quick': 960, 'thorough': 60000},
+    'trusted_base': [
+        'the `schema` library (its combinators as used by schemas.py are re-implemented in Model/Config.lean) and inspect.signature',
+        'PyYAML is not installed in this sandbox: files are loaded with the harness YAML-subset loader (harness/miniyaml.py), which is therefore part of the trusted base for this property',
+        'custom components (module:name, examples/coin_env.yaml) are opaque to the model; coin_env is exercised by the oracle only',
+    ],
+    'assumptions': ['behavioural equality with the hand-assembled environment is decided by running the real factory-built environment, the hand-assembled one and the model on the same histories'],
+}
+
 NOT_CLAIMED = {}
